@@ -4,9 +4,11 @@
    record = cfg ops
      cfg = ( query iter lo_iter shared ctrl v2 )
      op  = ( 0 )                                            a Write / delete through the API
-         | ( 1 api hi key ref obs unstable ( clobber* ) )   one request (BatchCheck: one per item)
+         | ( 1 api hi key ref obs unstable ( clobber* ) fault )   one request (BatchCheck: one per item);
+                                                            fault = 1: the datastore reads of the server under test were made
+                                                            to fail during the request
    api: 0 Check, 1 BatchCheck item, 2 ListObjects, 3 ListUsers; answers are opaque codes interned by
-   the driver (0 denied, 1 allowed, 2 = Request Cancelled, 3.. other error classes and result sets); `ref` is the answer of a
+   the driver (0 denied, 1 allowed, 2 = Request Cancelled, 3..99 other error classes, 100.. result sets); `ref` is the answer of a
    cache-less server with the same engine on the same store state.
    unstable = 1: two reference evaluations on the same store state disagreed (engine
    non-determinism that has nothing to do with caching): the case is not judged.
@@ -23,9 +25,9 @@ let cfg_of v =
 let op_of v =
   match as_list v with
   | [I "0"] -> (RWrite, false)
-  | [I "1"; api; hi; key; rf; obs; unst; cl] ->
+  | [I "1"; api; hi; key; rf; obs; unst; cl; fault] ->
     (RReq { rq_api = as_n api; rq_hi = as_bool hi; rq_key = as_n key; rq_ref = as_n rf; rq_obs = as_n obs;
-            rq_clobber = List.map as_n (as_list cl) }, as_bool unst)
+            rq_clobber = List.map as_n (as_list cl); rq_fault = as_bool fault }, as_bool unst)
   | _ -> failwith "op"
 
 let api_name a = match int_of_n a with 0 -> "Check" | 1 -> "BatchCheck" | 2 -> "ListObjects" | _ -> "ListUsers"
@@ -33,13 +35,34 @@ let api_name a = match int_of_n a with 0 -> "Check" | 1 -> "BatchCheck" | 2 -> "
 let show_pred = function
   | PExact a -> "exactly " ^ dec_of_n a
   | PExactOrCancelled a -> "exactly " ^ dec_of_n a ^ " (or 2 = Request Cancelled, shared iterator)"
+  | PExactOrError a -> "exactly " ^ dec_of_n a ^ " or an error (injected datastore fault), never another decision"
   | PAnyAnswer -> "any"
 
-let f _id vs =
+(* Cross-check of extraction: with ORACLE_DUMP=<file> one line per case is appended with what the
+   EXTRACTED model computed for the history: per request the verdict of `replay` and the prediction
+   of `predictions` (kind 0 exact / 1 exact-or-cancelled / 2 exact-or-error / 3 any, and its answer);
+   bin/coqreplay_c10.py recomputes the same numbers inside Coq (vm_compute). *)
+let dump_chan = match Sys.getenv_opt "ORACLE_DUMP" with
+  | Some p when p <> "" -> Some (open_out_gen [Open_append; Open_creat] 0o644 p)
+  | _ -> None
+let pred_code = function
+  | PExact a -> [0; int_of_n a] | PExactOrCancelled a -> [1; int_of_n a]
+  | PExactOrError a -> [2; int_of_n a] | PAnyAnswer -> [3; 0]
+let dump id c h =
+  match dump_chan with
+  | None -> ()
+  | Some ch ->
+    let vs = List.map int_of_n (replay c rs0 h) in
+    let ps = List.map (fun (_, p) -> pred_code p) (predictions c rs0 h) in
+    let nums = (try List.concat (List.map2 (fun v p -> v :: p) vs ps) with Invalid_argument _ -> [-1]) in
+    output_string ch (id ^ " " ^ String.concat " " (List.map string_of_int nums) ^ "\n"); flush ch
+
+let f id vs =
   match vs with
   | [cfgv; opsv] ->
     let c = cfg_of cfgv in
     let ops = List.map op_of (as_list opsv) in
+    dump id c (List.map fst ops);
     if List.exists snd ops then "OK"
     else begin
       let h = List.map fst ops in
@@ -51,7 +74,7 @@ let f _id vs =
         | v :: vl', (r, p) :: pl' ->
           if int_of_n v = want then
             Some (Printf.sprintf "request #%d %s %s key=%s: observed=%s reference=%s model predicts %s"
-                    i (api_name r.rq_api) (if r.rq_hi then "HIGHER_CONSISTENCY" else "cached")
+                    i (api_name r.rq_api) ((if r.rq_hi then "HIGHER_CONSISTENCY" else "cached") ^ (if r.rq_fault then " under an injected datastore fault" else ""))
                     (dec_of_n r.rq_key) (dec_of_n r.rq_obs) (dec_of_n r.rq_ref) (show_pred p))
           else find want (i + 1) vl' pl'
         | _ -> None
@@ -63,6 +86,7 @@ let f _id vs =
               | PExact a when a <> r.rq_ref -> "cached_exact_STALE_top_level_hit"
               | PExact _ -> "cached_exact_reference"
               | PExactOrCancelled _ -> "cached_exact_or_cancelled"
+              | PExactOrError _ -> "exact_or_error_under_fault"
               | PAnyAnswer -> if r.rq_obs = r.rq_ref then "cached_any_observed_fresh" else "cached_any_observed_stale" in
             prerr_endline k) preds;
       if List.length verdicts <> List.length preds then "DIFF model verdict count"
